@@ -168,6 +168,15 @@ fn load_known() -> Value {
 }
 
 fn main() {
+    // any panic of the harness itself on the main thread is a harness defect: inconclusive, never a verdict
+    let r = std::panic::catch_unwind(real_main);
+    if r.is_err() {
+        println!("INCONCLUSIVE: the harness itself panicked (harness defect, not a verdict); rerun with VERIF_DEBUG_PANIC=1");
+        std::process::exit(2);
+    }
+}
+
+fn real_main() {
     let args: Vec<String> = std::env::args().collect();
     if args.len() < 2 {
         eprintln!("usage: atsmon <C01..C17|ALL> [quick|thorough] [--replay file] [--evidence dir]");
@@ -277,7 +286,7 @@ fn main() {
                     timed_out = true;
                     break;
                 }
-                let h = match &tasks[i] {
+                let task_result = std::panic::catch_unwind(std::panic::AssertUnwindSafe(|| -> Option<History> { Some(match &tasks[i] {
                     Task::Random(rg, s) => run_random(*s, rg, &opts, &mut st),
                     Task::Migration(s) => migrate::run_migration_history(*s, &opts, &mut st),
                     Task::RandomLogs(s) => {
@@ -288,6 +297,15 @@ fn main() {
                         let markets = explore::tiny_markets();
                         let mut found = explore::explore(&markets[*mi], *depth, *budget, &opts, &mut st);
                         bad.extend(found.drain(..).take(20));
+                        return None;
+                    }
+                }) }));
+                let h = match task_result {
+                    Ok(Some(h)) => h,
+                    Ok(None) => continue,
+                    Err(_) => {
+                        // a defect of the harness itself on this one history: counted, never a verdict
+                        st.g("harness_panics");
                         continue;
                     }
                 };
@@ -393,6 +411,7 @@ fn main() {
                 "known_findings_observed": kf_lines,
                 "coverage_floor_misses": miss,
                 "watchdog_fired": timed_out,
+                "harness_panics": st.global.get("harness_panics"),
                 "exhaustive": false,
                 "exhaustive_matrices": exhaustive_list(p),
             },
@@ -411,6 +430,9 @@ fn main() {
     let evals = st.props.get(prop).map_or(0, |x| x.evals);
     let cases = st.props.get(prop).map_or(0, |x| x.cases.len());
     println!("{} {} seed={} histories={} calls={} probes={} evaluations={} distinct_cases={} books={} other_flagged={:?} wall={:.1}s", prop, tier, seed, st.global.get("histories").unwrap_or(&0), st.global.get("steps").unwrap_or(&0), st.global.get("probes").unwrap_or(&0), evals, cases, st.books.len(), other, wall);
+    if let Some(n) = st.global.get("harness_panics") {
+        println!("note: {} task(s) hit a panic inside the harness and were skipped (rerun with VERIF_DEBUG_PANIC=1 VERIF_THREADS=1 to locate)", n);
+    }
     if !w0_fail.is_empty() {
         println!("note: {} scripted W0 step(s) did not have the expected outcome (first: {})", w0_fail.len(), w0_fail[0]);
     }
